@@ -186,6 +186,113 @@ theorem findIdx?_insBefore_of_fresh {p q : α → Bool} {n : α} {l : List α} (
       obtain ⟨i, h1, h2, h3⟩ := ih (fun x hx => hf x (List.mem_cons_of_mem _ hx))
       exact ⟨i + 1, by simp [List.findIdx?_cons, hy, h1], by simpa using h2, by simp [h3]⟩
 
+/-! ### the leading elements with a property (list keys) -/
+
+/-- all elements with the property come first -/
+def Lead (p : α → Bool) (l : List α) : Prop := ∀ x ∈ l.dropWhile p, p x = false
+
+theorem lead_cons_false {p : α → Bool} {y : α} {ys : List α} (hy : p y = false) :
+    Lead p (y :: ys) ↔ ∀ x ∈ ys, p x = false := by
+  simp only [Lead, List.dropWhile_cons, hy, Bool.false_eq_true, ↓reduceIte, List.mem_cons, forall_eq_or_imp, true_and]
+
+theorem lead_cons_true {p : α → Bool} {y : α} {ys : List α} (hy : p y = true) : Lead p (y :: ys) ↔ Lead p ys := by
+  simp only [Lead, List.dropWhile_cons, hy, ↓reduceIte]
+
+theorem takeWhile_of_all_false {p : α → Bool} {l : List α} (h : ∀ x ∈ l, p x = false) : l.takeWhile p = [] := by
+  cases l with
+  | nil => rfl
+  | cons y ys => simp [List.takeWhile_cons, h y (List.mem_cons_self ..)]
+
+theorem takeWhile_insBefore {p q : α → Bool} {n : α} {l : List α} (hn : p n = false)
+    (h : ∀ x ∈ l.takeWhile p, q x = false) :
+    (insBefore q n l).takeWhile p = l.takeWhile p ∧ (Lead p l → Lead p (insBefore q n l)) := by
+  induction l with
+  | nil => simp [insBefore, hn, Lead]
+  | cons y ys ih =>
+    simp only [insBefore]
+    by_cases hy : p y = true
+    · have hq : q y = false := h y (by simp [List.takeWhile_cons, hy])
+      have ih' := ih (fun x hx => h x (by simp [List.takeWhile_cons, hy, hx]))
+      simp only [hq, Bool.false_eq_true, ↓reduceIte, List.takeWhile_cons, hy]
+      refine ⟨by rw [ih'.1], ?_⟩
+      rw [lead_cons_true hy, lead_cons_true hy]
+      exact ih'.2
+    · have hy' : p y = false := by simpa using hy
+      split
+      · refine ⟨by simp [List.takeWhile_cons, hn, hy'], ?_⟩
+        intro hl
+        rw [lead_cons_false hn]
+        rw [lead_cons_false hy'] at hl
+        intro x hx
+        rcases List.mem_cons.mp hx with rfl | hx
+        · exact hy'
+        · exact hl x hx
+      · refine ⟨by simp [List.takeWhile_cons, hy'], ?_⟩
+        intro hl
+        rw [lead_cons_false hy'] at hl ⊢
+        intro x hx
+        rcases insBefore_mem.mp hx with rfl | hx
+        · exact hn
+        · exact hl x hx
+
+theorem takeWhile_eraseIdx {p : α → Bool} {l : List α} {i : Nat} {y : α} (hl : Lead p l) (hy : l[i]? = some y)
+    (hp : p y = false) : (l.eraseIdx i).takeWhile p = l.takeWhile p ∧ Lead p (l.eraseIdx i) := by
+  induction l generalizing i with
+  | nil => simp at hy
+  | cons z zs ih =>
+    cases i with
+    | zero =>
+      simp only [List.getElem?_cons_zero, Option.some.injEq] at hy
+      subst hy
+      rw [lead_cons_false hp] at hl
+      simp only [List.eraseIdx_cons_zero, List.takeWhile_cons, hp, Bool.false_eq_true, ↓reduceIte]
+      refine ⟨takeWhile_of_all_false hl, ?_⟩
+      intro x hx
+      exact hl x ((List.dropWhile_sublist _).subset hx)
+    | succ j =>
+      simp only [List.getElem?_cons_succ] at hy
+      simp only [List.eraseIdx_cons_succ, List.takeWhile_cons]
+      by_cases hz : p z = true
+      · rw [lead_cons_true hz] at hl
+        have := ih hl hy
+        simp only [hz, ↓reduceIte, this.1, true_and]
+        rw [lead_cons_true hz]
+        exact this.2
+      · have hz' : p z = false := by simpa using hz
+        rw [lead_cons_false hz'] at hl
+        simp only [hz', Bool.false_eq_true, ↓reduceIte, true_and]
+        rw [lead_cons_false hz']
+        intro x hx
+        exact hl x (List.mem_of_mem_eraseIdx hx)
+
+theorem takeWhile_set {p : α → Bool} {l : List α} {i : Nat} {y y' : α} (hy : l[i]? = some y) (hp : p y = false)
+    (hp' : p y' = false) : (l.set i y').takeWhile p = l.takeWhile p ∧ (Lead p l → Lead p (l.set i y')) := by
+  induction l generalizing i with
+  | nil => simp at hy
+  | cons z zs ih =>
+    cases i with
+    | zero =>
+      simp only [List.getElem?_cons_zero, Option.some.injEq] at hy
+      subst hy
+      simp only [List.set_cons_zero, List.takeWhile_cons, hp, hp']
+      rw [lead_cons_false hp, lead_cons_false hp']
+      exact ⟨by simp, id⟩
+    | succ j =>
+      simp only [List.getElem?_cons_succ] at hy
+      simp only [List.set_cons_succ, List.takeWhile_cons]
+      by_cases hz : p z = true
+      · have := ih hy
+        simp only [hz, ↓reduceIte, this.1, true_and]
+        rw [lead_cons_true hz, lead_cons_true hz]
+        exact this.2
+      · have hz' : p z = false := by simpa using hz
+        simp only [hz', Bool.false_eq_true, ↓reduceIte, true_and]
+        rw [lead_cons_false hz', lead_cons_false hz']
+        intro hl x hx
+        rcases List.mem_or_eq_of_mem_set hx with h | rfl
+        · exact hl x h
+        · exact hp'
+
 /-! ### sorted lists: uniqueness of instances, erase, set -/
 
 namespace Ord
